@@ -47,7 +47,7 @@ pub fn generate(rng: &mut Rng, tier: Tier) -> Scn {
     Scn { roller, pre_archives, bystanders, rolls, faults: vec![], sched_seed: rng.next_u64() }
 }
 
-const AT: Attr = Attr { prop: "C07", data: "C07-I1", other_prop: "C07", other: "C07-I4", sig: "" };
+const AT: Attr = Attr { prop: "C07", data: "C07-I1", other_prop: "C07", other: "C07-I4", sig: "", also: None };
 
 pub fn execute(scn: &Scn, opts: &ExecOpts) -> Outcome {
     let mut out = Outcome::default();
